@@ -1,0 +1,43 @@
+//go:build verif
+
+package utils
+
+import "sync/atomic"
+
+// VerifSetWindow replaces the slot window by an empty one of n slots based at
+// DoneUntil()+1 (simulation only; call before the first Begin). Small windows
+// make far-apart indices exercise rebuildWindowLocked.
+func (w *WaterMark) VerifSetWindow(n int) {
+	if n <= 0 {
+		n = defaultWatermarkWindow
+	}
+	w.window.Store(&watermarkWindow{
+		base:  w.DoneUntil() + 1,
+		slots: make([]atomic.Int32, n),
+	})
+}
+
+// VerifWindow reports the current window (identity, base, size).
+func (w *WaterMark) VerifWindow() (id any, base uint64, size int) {
+	win := w.loadWindow()
+	return win, win.base, len(win.slots)
+}
+
+// VerifSlot returns the pending count recorded for index in the current window.
+func (w *WaterMark) VerifSlot(index uint64) (count int32, inWindow bool) {
+	win := w.loadWindow()
+	if index < win.base || index >= win.base+uint64(len(win.slots)) {
+		return 0, false
+	}
+	return win.slots[index-win.base].Load(), true
+}
+
+// VerifSlotIn is VerifSlot for a specific window (the owner passed to the
+// wm.adv.* / wm.add.* yield sites), current or already replaced.
+func (w *WaterMark) VerifSlotIn(window any, index uint64) (count int32, inWindow bool) {
+	win, ok := window.(*watermarkWindow)
+	if !ok || win == nil || index < win.base || index >= win.base+uint64(len(win.slots)) {
+		return 0, false
+	}
+	return win.slots[index-win.base].Load(), true
+}
